@@ -136,6 +136,17 @@ def postiter_stage(zx, sc, tier, seed, known):
     if cnt["WALK"] == 0 or cnt["TABLES"] != 1:
         raise Inconclusive("PostIter model emitted no walks")
     log("G: PostIter(%s): %d states, %d maximal walks, %d batches" % (cfg, st["distinct_states"], cnt["WALK"], cnt["BATCH"]))
+    # the operational model of the code's algorithm refines the declarative iterator; two deliberately
+    # wrong variants of it must be refuted (the refinement check is not vacuous)
+    icfg = "PostIterImplQ.cfg" if q else "PostIterImpl.cfg"
+    io, ist = tlc(sc, "PostIterImpl", cfg=icfg, workers=8, timeout=3000, outname="pii.out")
+    if tlc_errors(io):
+        raise Inconclusive("PostIterImpl does not refine PostIter: " + "; ".join(tlc_errors(io)[:2]))
+    for mut in ("gt", "same1"):
+        mo, _ = tlc(sc, "PostIterImpl", cfg="PostIterImplMut_%s.cfg" % mut, workers=4, timeout=900, outname="pii-%s.out" % mut)
+        if not any("Refines is violated" in e for e in tlc_errors(mo)):
+            raise Inconclusive("PostIterImpl: the wrong variant %s is not refuted" % mut)
+    log("G: PostIterImpl(%s): %d states, Refines holds; variants gt / same1 refuted" % (icfg, ist["distinct_states"]))
     args = [zx, "postiter", "-in", sc.path("piwalks.ndjson"), "-tables", sc.path("pitables.json"), "-batches", sc.path("pibatches.ndjson"),
             "-dir", sc.path("pisegs"), "-out", sc.path("pidiffs.ndjson"), "-seed", str(seed)]
     if q:
@@ -158,9 +169,11 @@ def postiter_stage(zx, sc, tier, seed, known):
         paths.append(save_replay(pid, seed, 100 + len(paths), {"property": pid, "key": key, "family": "postiter", "diff": d}))
     with open(sc.path("piwalks.ndjson")) as fh:
         samples = [json.loads(fh.readline()) for _ in range(2)]
-    cov = {"family": "postiter", "states": st["distinct_states"], "transitions": st["states_generated"],
+    cov = {"family": "postiter", "states": st["distinct_states"] + ist["distinct_states"], "transitions": st["states_generated"] + ist["states_generated"],
            "traces_validated_against_impl": rs["runs"], "samples": samples,
            "model": {"module": "PostIter.tla", "cfg": cfg, "invariants": ["IterSound", "NextOnlyComplete"], "wall_s": st["wall_s"]},
+           "impl_model": {"module": "PostIterImpl.tla", "cfg": icfg, "invariant": "Refines", "distinct_states": ist["distinct_states"],
+                          "refuted_variants": ["PostIterImplMut_gt.cfg", "PostIterImplMut_same1.cfg"]},
            "walks": cnt["WALK"], "iterator_runs": rs["runs"], "single_hit_runs": rs["onehit"], "replace_actual_runs": rs["replace"],
            "configurations": "every walk x {mem, mmap, merged} x chunk modes {1,2,3,1025} x {rich f/t, plain g/s} x detail flags x {except, replace, reuse, reuse-other, emptybm}",
            "exhaustive": True}
